@@ -10,9 +10,10 @@ Model of the BIDS inheritance machinery of hed-python (layer `Bids`, property C1
 * `hed/models/sidecar.py`       : `Sidecar.load_sidecar_files` (`dict.update` in list order)
 * `hed/tools/bids/bids_dataset.py` : `BidsDataset.validate`;  `hed/scripts/hed_validator.py` : `main`
 
-A dataset is a listing `List (Path × Columns α)` in `os.walk` order; a path is the list of components
+A dataset is a directory tree `Dir` (files and sub-directories in `os.scandir` order); its flat listing
+`Dir.listing : List (Path × Option (Columns α))` is in `os.walk` order; a path is the list of components
 below the dataset root, the last one being the file name.  The second component is the parsed top-level
-JSON object of a `.json` file (ignored for other files).  Names are `List Char` (ASCII lower-casing and
+JSON object of a `.json` file (`none` if it is not an object; ignored for other files).  Names are `List Char` (ASCII lower-casing and
 ASCII `strip`; the harness generates ASCII names only).  No Mathlib: linked into the native driver.
 -/
 import HedVerif.Model.Tok
@@ -83,11 +84,42 @@ def splitExt (name : Str) : Str × Str :=
     if stem.all (· == '.') then (name, [])            -- leading dots only
     else (stem, '.' :: extR.reverse)
 
-/-- `check_filename(name, None, name_suffix, [ext])`: lower-cased name ends with the extension and,
-after removing it, with the suffix (an *ends-with* test: `x_myevents.json` is picked up for `events`) -/
-def checkName (name suffix ext : Str) : Bool :=
+/-- the filter arguments of `check_filename` / `get_file_list` / `get_dir_dictionary`
+(`name_prefix`, `name_suffix`, `extensions` as lists); `[]` stands for `None`/empty = accept all -/
+structure NameFilter where
+  prefixes : List Str := []
+  suffixes : List Str := []
+  exts : List Str := []
+
+/-- `get_allowed(value, allowed, starts_with)` for a non-empty `allowed`: the first allowed value
+(lower-cased, in list order) that the lower-cased value starts / ends with.  The callers test the
+*truthiness* of the result, so a matching empty string counts as no match (`accepted`). -/
+def getAllowed (value : Str) (allowed : List Str) (starts : Bool) : Option Str :=
+  (allowed.map lower).find? fun a => if starts then a.isPrefixOf (lower value) else endsWith (lower value) a
+
+def accepted : Option Str → Bool
+  | some a => !a.isEmpty
+  | none => false
+
+/-- `check_filename(name, name_prefix, name_suffix, extensions)`: everything lower-cased; the prefix is
+tested on the whole name, the *first* matching extension is cut off (`os.path.splitext` if no
+extensions are given), the suffix is an *ends-with* test on the rest (`x_myevents.json` is picked up
+for `events`). -/
+def checkFilename (f : NameFilter) (name : Str) : Bool :=
   let b := lower name
-  endsWith b (lower ext) && endsWith (b.take (b.length - ext.length)) (lower suffix)
+  if !(f.prefixes.isEmpty || accepted (getAllowed b f.prefixes true)) then false
+  else
+    let stem : Option Str :=
+      if f.exts.isEmpty then some (splitExt b).1
+      else match getAllowed b f.exts false with
+        | some e => if e.isEmpty then none else some (b.take (b.length - e.length))
+        | none => none
+    match stem with
+    | none => false
+    | some st => f.suffixes.isEmpty || accepted (getAllowed st f.suffixes false)
+
+/-- the filter `BidsFileGroup` uses: `name_suffix=suffix, extensions=[ext]` -/
+def checkName (name suffix ext : Str) : Bool := checkFilename ⟨[], [suffix], [ext]⟩ name
 
 inductive Piece where
   | bad
@@ -135,12 +167,14 @@ def parseName (name : Str) : Except PErr (Option Str × List (Str × Str)) :=
 
 /-! ### parsed files, applicability -/
 
-/-- a `BidsFile` (`cols` = the JSON object of a sidecar file, `[]` for data files) -/
+/-- a `BidsFile` (`cols` = the JSON object of a sidecar file, `[]` for data files; `obj = false` for a
+`.json` file whose top level is not an object: `load_sidecar_files` skips it and records a load issue) -/
 structure PFile (α : Type) where
   path : Path
   suffix : Option Str
   ents : List (Str × Str)
   cols : Columns α
+  obj : Bool
 deriving DecidableEq
 
 def PFile.dir (f : PFile α) : Path := f.path.dropLast
@@ -182,8 +216,20 @@ def dirSidecars (g : Group α) (d : Path) : List (PFile α) := g.sidecars.filter
 /-- `get_sidecars_from_path(obj)`: per directory from the root to the object's directory, the *first*
 listed sidecar with `is_sidecar_for(obj)` (`_get_sidecar_for_obj`).  If a directory holds two applicable
 sidecars the second one is silently ignored. -/
-def chain (g : Group α) (o : PFile α) : List (PFile α) :=
-  (inits o.dir).filterMap fun d => (dirSidecars g d).find? (fun s => applies s o)
+def chainAt (g : Group α) (o : PFile α) (d : Path) : Option (PFile α) :=
+  (dirSidecars g d).find? (fun s => applies s o)
+
+def chain (g : Group α) (o : PFile α) : List (PFile α) := (inits o.dir).filterMap (chainAt g o)
+
+/-- the chain the code chooses, stated with the property's applicability test: per directory on the
+path the *first listed* applicable sidecar (listing order = `os.walk` = `os.scandir` order, which is
+not sorted) -/
+def chosenChain (g : Group α) (o : PFile α) : List (PFile α) :=
+  (inits o.dir).filterMap fun d => (dirSidecars g d).find? (fun s => specApplies s o)
+
+/-- number of `WRONG_HED_DATA_TYPE` load issues of the merged `Sidecar`: chain members that are not
+JSON objects -/
+def loadIssueCount (g : Group α) (o : PFile α) : Nat := ((chain g o).filter (fun s => !s.obj)).length
 
 /-- the property's chain: *every* applicable sidecar on the path, shallower directories first -/
 def specChain (g : Group α) (o : PFile α) : List (PFile α) :=
@@ -208,7 +254,9 @@ def hasSidecar (g : Group α) (o : PFile α) : Bool := !(chain g o).isEmpty
 
 /-! ### discovery -/
 
-abbrev Tree (α : Type) := List (Path × Columns α)
+/-- second component: the top-level JSON object of a `.json` file, `none` if the top level is not an
+object (irrelevant for other files) -/
+abbrev Tree (α : Type) := List (Path × Option (Columns α))
 
 /-- `os.walk` with `dirs[:] = [d for d in dirs if d not in exclude_dirs]`: a file is reached iff no
 directory component below the root is an excluded *name* (the file name itself is not tested) -/
@@ -218,13 +266,61 @@ def visible (excl : List Str) (p : Path) : Bool := p.dropLast.all fun c => !excl
 def discover (t : Tree α) (excl : List Str) (suffix ext : Str) : Tree α :=
   t.filter fun f => visible excl f.1 && checkName (f.1.getLastD []) suffix ext
 
+/-! ### the directory tree and its traversal (`os.walk`, `get_file_list`, `get_dir_dictionary`) -/
+
+mutual
+/-- a directory: its files (name, content) and its sub-directories, each in `os.scandir` order -/
+inductive Dir (α : Type) where
+  | mk (files : List (Str × Option (Columns α))) (subs : DirList α)
+inductive DirList (α : Type) where
+  | nil
+  | cons (name : Str) (d : Dir α) (rest : DirList α)
+end
+
+mutual
+/-- `for root, dirs, files in os.walk(top, topdown=True): dirs[:] = [d for d in dirs if d not in excl]`
+collecting the files whose *name* passes `keep`, with their path below the top (`here` = path of this
+directory): the files of a directory first, then its kept sub-directories in order, depth first -/
+def Dir.files (excl : List Str) (keep : Str → Bool) (here : Path) : Dir α → Tree α
+  | .mk fs subs =>
+    ((fs.filter fun f => keep f.1).map fun f => (here ++ [f.1], f.2)) ++ DirList.files excl keep here subs
+def DirList.files (excl : List Str) (keep : Str → Bool) (here : Path) : DirList α → Tree α
+  | .nil => []
+  | .cons n d rest =>
+    (if excl.contains n then [] else Dir.files excl keep (here ++ [n]) d) ++ DirList.files excl keep here rest
+end
+
+/-- every file, nothing pruned, in walk order: the listing the flat model (`discover`, `load`) works on -/
+def Dir.listing (D : Dir α) : Tree α := D.files [] (fun _ => true) []
+
+/-- `get_file_list(root, name_prefix, name_suffix, extensions, exclude_dirs)` -/
+def getFileList (D : Dir α) (f : NameFilter) (excl : List Str) : Tree α := D.files excl (checkFilename f) []
+
+mutual
+/-- `get_dir_dictionary(...)`: directory → its accepted files, in walk order; directories without
+accepted files are left out when `skip_empty` -/
+def Dir.dict (excl : List Str) (keep : Str → Bool) (skipEmpty : Bool) (here : Path) : Dir α → List (Path × List Path)
+  | .mk fs subs =>
+    let l := (fs.filter fun f => keep f.1).map fun f => here ++ [f.1]
+    (if skipEmpty && l.isEmpty then [] else [(here, l)]) ++ DirList.dict excl keep skipEmpty here subs
+def DirList.dict (excl : List Str) (keep : Str → Bool) (skipEmpty : Bool) (here : Path) :
+    DirList α → List (Path × List Path)
+  | .nil => []
+  | .cons n d rest =>
+    (if excl.contains n then [] else Dir.dict excl keep skipEmpty (here ++ [n]) d) ++
+      DirList.dict excl keep skipEmpty here rest
+end
+
+def getDirDictionary (D : Dir α) (f : NameFilter) (excl : List Str) (skipEmpty : Bool := true) :
+    List (Path × List Path) := D.dict excl (checkFilename f) skipEmpty []
+
 /-- `BidsFile(path)` for each discovered file; the first malformed name raises -/
 def parseAll : Tree α → Except PErr (List (PFile α))
   | [] => .ok []
   | (p, c) :: r => match parseName (p.getLastD []), parseAll r with
     | .error e, _ => .error e
     | .ok _, .error e => .error e
-    | .ok (sfx, es), .ok fs => .ok (⟨p, sfx, es, c⟩ :: fs)
+    | .ok (sfx, es), .ok fs => .ok (⟨p, sfx, es, c.getD [], c.isSome⟩ :: fs)
 
 def jsonExt : Str := ['.', 'j', 's', 'o', 'n']
 def tsvExt : Str := ['.', 't', 's', 'v']
@@ -233,7 +329,7 @@ def tsvExt : Str := ['.', 't', 's', 'v']
 def load (t : Tree α) (excl : List Str) (suffix : Str) : Except PErr (Group α) :=
   match parseAll (discover t excl suffix jsonExt) with
   | .error e => .error e
-  | .ok ss => match parseAll ((discover t excl suffix tsvExt).map fun f => (f.1, [])) with
+  | .ok ss => match parseAll ((discover t excl suffix tsvExt).map fun f => (f.1, some [])) with
     | .error e => .error e
     | .ok ds => .ok ⟨ss, ds⟩
 
